@@ -24,7 +24,10 @@ Fixpoint is_prefix (p s : bytes) : bool :=
   | _ :: _, [] => false
   end.
 
-Definition is_suffix (p s : bytes) : bool := is_prefix (rev p) (rev s).
+(* linear-time reverse (List.rev is quadratic); equal to [rev] by [rev_alt] *)
+Definition frev {A} (l : list A) : list A := rev_append l [].
+
+Definition is_suffix (p s : bytes) : bool := is_prefix (frev p) (frev s).
 
 (* Go bytes.Contains(s, sub): the empty [sub] is contained in everything. *)
 Fixpoint contains (sub s : bytes) : bool :=
@@ -74,7 +77,7 @@ Fixpoint trim_left_set (cut : bytes) (s : bytes) : bytes :=
   | x :: t => if mem_byte x cut then trim_left_set cut t else s
   end.
 
-Definition trim_right_set (cut s : bytes) : bytes := rev (trim_left_set cut (rev s)).
+Definition trim_right_set (cut s : bytes) : bytes := frev (trim_left_set cut (frev s)).
 Definition trim_set (cut s : bytes) : bytes := trim_right_set cut (trim_left_set cut s).
 
 Definition trim_prefix (p s : bytes) : bytes :=
@@ -126,13 +129,13 @@ Fixpoint go_trim_leftr_fuel (fuel : nat) (s : bytes) : bytes :=
       | [] => []
       | x :: t =>
           if ascii_space x then go_trim_leftr_fuel f t
-          else match first_prefix_of (map (@rev N) uni_space_seqs) s with
+          else match first_prefix_of (map (@frev N) uni_space_seqs) s with
                | Some c => go_trim_leftr_fuel f (skipn (length c) s)
                | None => s
                end
       end
   end.
-Definition go_trim_right (s : bytes) : bytes := rev (go_trim_leftr_fuel (length s) (rev s)).
+Definition go_trim_right (s : bytes) : bytes := frev (go_trim_leftr_fuel (length s) (frev s)).
 Definition go_trim_space (s : bytes) : bytes := go_trim_right (go_trim_left s).
 
 (* ---------- case ---------- *)
